@@ -6,6 +6,12 @@ ROOT = os.path.dirname(os.path.dirname(os.path.abspath(__file__)))
 
 # id -> (level, technique, level text, level note, design ref)
 CHECKS = {
+    "C02": ("exploration", "runtime monitoring: differential oracle (independent canonical DAG-CBOR reference encoder) over generated values, all insertion orders of small maps, head-boundary sweep, interleaved failed encodes",
+            "Held on the executions observed: every generated value, in several insertion orders and node implementations, encoded to exactly the reference encoder's bytes; EncodedLength matched; decode read back the key-sorted value. Sampling with boundary bias, not a proof.",
+            "Trusted: internal/ref/cbor encoder (written from the spec), go-cid for CID parsing.", "DESIGN.md §2 C02"),
+    "C03": ("exploration", "runtime monitoring: differential oracle (independent strict reference decoder) over an exhaustive short-input space plus single-point, multi-point and structure-aware mutations of valid encodings; basicnode and recording-assembler targets",
+            "Held on the executions observed; the sub-space of all byte strings of length 0-2 (quick) / 0-3 (thorough) is enumerated completely, the rest is mutation sampling. One known finding in the pinned dependency refmt (-2^64 decodes as 0).",
+            "Trusted: internal/ref/cbor decoder, go-cid for CID syntax; UTF-8 validity and resource limits are outside the oracle.", "DESIGN.md §2 C03"),
 }
 
 NOT_YET = "check not built yet in this phase (see DESIGN.md section 2 for the intended monitor); not claimed"
